@@ -131,6 +131,24 @@ def body_instant(case):
     return {"nt": nb, "cls": ["near-boundary"] if nb else ["interior"]}
 
 
+# --- (iii-b) arbitrary float seconds (ObsTime.random() and GPS epochs feed such values) ----------------
+def strat_float():
+    us = st.one_of(st.sampled_from([0, 1, 499, 500, 501, 949, 950, 999]), st.integers(0, 999))
+    return st.tuples(gen.ts_ms(), us).map(lambda t: {"ms": t[0], "us": t[1]})
+
+
+def body_float(case):
+    s = case["ms"] / 1000.0 + case["us"] / 1e6
+    r = ObsTime.readUnixTime(s)
+    _wellformed(r, "readUnixTime(%r)" % s)
+    back = r.toAbsTime()
+    if abs(back - s) > TOL_S:
+        raise Violation("readUnixTime-drift", "readUnixTime(%r) = %s denotes %r" % (s, _fields(r), back))
+    ref = gen.fields_of_ms(case["ms"])
+    nb = _near_boundary(case["ms"]) and case["ms"] % 1000 == 999
+    return {"nt": case["us"] > 0, "cls": ["last-ms-of-day" if (nb and ref[3:6] == (23, 59, 59)) else "other"]}
+
+
 # --- (iv) ordering ------------------------------------------------------------------------------
 def _bump(t):
     """second instant one unit away in exactly one field (stays inside the domain)"""
@@ -153,11 +171,13 @@ def _bump(t):
 
 def strat_pair():
     free = st.tuples(gen.ts_ms(), gen.ts_ms()).map(lambda t: {"a": t[0], "b": t[1]})
-    same_year = st.tuples(gen.ts_ms(), st.integers(-366 * DAY, 366 * DAY)).map(
-        lambda t: {"a": t[0], "b": min(max(t[0] + t[1], 0), gen.MAX_MS)})
+    same_year = st.tuples(gen.ts_ms(), st.sampled_from([-1, 1]), st.integers(1, 366 * DAY)).map(
+        lambda t: {"a": t[0], "b": min(max(t[0] + t[1] * t[2], 0), gen.MAX_MS)})
     near = st.tuples(gen.ts_ms(), st.integers(0, 6), st.sampled_from([-1, 1])).map(_bump)
     eq = gen.ts_ms().map(lambda v: {"a": v, "b": v})
-    return st.one_of(free, same_year, near, near, eq)
+    delta = st.tuples(gen.ts_ms(), st.sampled_from([-1, 1]), st.sampled_from([1, 1000, 60000, 3600000, DAY, 28 * DAY, 31 * DAY, 365 * DAY]),
+                      st.integers(1, 3)).map(lambda t: {"a": t[0], "b": min(max(t[0] + t[1] * t[2] * t[3], 0), gen.MAX_MS)})
+    return st.one_of(free, free, same_year, same_year, near, near, near, delta, delta, delta, eq)
 
 
 def body_pair(case):
@@ -185,8 +205,9 @@ def strat_offset():
     def mk(t):
         ms, unit, n = t
         return {"ms": ms, "unit": unit, "n": n}
-    n = st.one_of(st.integers(-400, 400), st.sampled_from([0, 1, -1, 59, 60, 61, 23, 24, 25, 28, 29, 30, 31, 365, 366]),
-                  st.integers(-100000, 100000))
+    mag = st.one_of(st.integers(0, 400), st.sampled_from([0, 1, 59, 60, 61, 23, 24, 25, 28, 29, 30, 31, 365, 366]),
+                    st.integers(0, 100000))
+    n = st.tuples(st.sampled_from([-1, 1]), mag).map(lambda t: t[0] * t[1])
     return st.tuples(gen.ts_ms(), st.sampled_from(sorted(UNITS)), n).map(mk)
 
 
@@ -221,6 +242,7 @@ SUBCHECKS = [
     SubCheck("days", body_day, enum=enum_days, rule="all 47482 days x 5 instants", qshards=8),
     SubCheck("boundary_seconds", body_seconds, enum=enum_seconds, rule="boundary days, per-second", qshards=4),
     SubCheck("instants", body_instant, strategy=strat_instant, quick=4000, thorough=200000),
+    SubCheck("float_seconds", body_float, strategy=strat_float, quick=3000, thorough=150000),
     SubCheck("pairs", body_pair, strategy=strat_pair, quick=4000, thorough=200000),
     SubCheck("offsets", body_offset, strategy=strat_offset, quick=4000, thorough=200000),
 ]
